@@ -212,3 +212,276 @@ def c19_check(case):
     if out != want:
         return {"kind": "stdout-differs", "argv": argv, "stdout": out[:600], "expected": want[:600]}
     return None
+
+
+# ---------------------------------------------------------------------------------------------
+# C03: optimize returns (no exception / assertion / endless loop)   -- run in a watchdog worker
+# ---------------------------------------------------------------------------------------------
+def exc_site(exc):
+    """innermost frame inside the ngo package: 'module.function' (robust against line shifts)"""
+    import traceback
+    tb = traceback.extract_tb(exc.__traceback__)
+    site = None
+    for fr in tb:
+        if "/ngo/" in fr.filename.replace("\\", "/"):
+            site = fr.filename.replace("\\", "/").split("/ngo/")[-1] + ":" + fr.name
+    return site or "outside-ngo"
+
+
+def c03_check(payload):
+    """payload: text, traits, input, output. failure = exception (timeouts are detected by the caller)"""
+    from . import asp_oracle
+    try:
+        asp_oracle.optimize_text(payload["text"], payload.get("traits", []), payload.get("input", "auto"),
+                                 payload.get("output", "auto"))
+    except Exception as e:  # pylint: disable=broad-except
+        return {"kind": "exception", "exc": type(e).__name__, "site": exc_site(e), "message": str(e)[:200]}
+    return None
+
+
+# ---------------------------------------------------------------------------------------------
+# C04: result is valid + safe, printed form faithful
+# ---------------------------------------------------------------------------------------------
+def c04_check(payload):
+    import clingo
+    from clingo.ast import ProgramBuilder, parse_string
+    from . import asp_oracle
+    text = payload["text"]
+    try:
+        asp_oracle.solve(text, "")
+    except asp_oracle.GroundError:
+        return None            # source not safe / not accepted: outside the quantifier
+    except asp_oracle.Skip:
+        pass
+    try:
+        prg, res, ip, op = asp_oracle.optimize_text(text, payload.get("traits", []), payload.get("input", "auto"),
+                                                    payload.get("output", "auto"))
+    except Exception:  # pylint: disable=broad-except
+        return None            # C03's business
+    res_text = "\n".join(str(s) for s in res)
+    # (1) every statement can be added to a builder and the program grounds
+    msgs = []
+    ctl = clingo.Control(["-Wno-atom-undefined"], logger=lambda c, m: msgs.append(m), message_limit=20)
+    try:
+        with ProgramBuilder(ctl) as bld:
+            for s in res:
+                bld.add(s)
+        ctl.ground([("base", [])])
+    except RuntimeError as e:
+        return {"kind": "ast-does-not-ground", "error": str(e)[:200], "messages": msgs[:3], "result": res_text[:1200]}
+    # (2) printed text parses back to the same text
+    for s in res:
+        back = []
+        try:
+            parse_string(str(s), back.append, logger=lambda c, m: None)
+        except RuntimeError as e:
+            return {"kind": "text-does-not-parse", "stmt": str(s)[:300], "error": str(e)[:200]}
+        if back and back[0].ast_type == ASTType.Program and str(back[0]) == "#program base.":
+            back = back[1:]        # parse_string always emits the implicit base program first
+        if s.ast_type == ASTType.Program and str(s) == "#program base." and not back:
+            continue
+        if len(back) != 1 or str(back[0]) != str(s):
+            return {"kind": "print-parse-roundtrip", "stmt": str(s)[:300], "back": [str(b)[:300] for b in back][:3]}
+    # (3) text grounds, and AST / text give the same answer sets on a few instances
+    import random
+    rng = random.Random(len(text))
+    inp_preds = [(p.name, p.arity) for p in ip]
+    for facts in asp_oracle.gen_instances(rng, inp_preds, 3):
+        try:
+            m_src = asp_oracle.solve(text, facts)
+        except (asp_oracle.Skip, asp_oracle.GroundError):
+            continue
+        try:
+            m_txt = asp_oracle.solve(res_text, facts)
+            m_ast = asp_oracle.solve(res, facts, via="ast")
+        except asp_oracle.GroundError as e:
+            return {"kind": "result-does-not-ground", "instance": facts, "error": str(e)[:200],
+                    "result": res_text[:1200]}
+        except asp_oracle.Skip:
+            continue
+        if asp_oracle.canon(m_txt, True) != asp_oracle.canon(m_ast, True):
+            return {"kind": "ast-vs-text-answer-sets-differ", "instance": facts, "result": res_text[:1200]}
+    return None
+
+
+# ---------------------------------------------------------------------------------------------
+# C07 (structural part): pass-through of non-rule statements, no new defining rules for inputs
+# ---------------------------------------------------------------------------------------------
+def c07_check(payload):
+    from . import asp_oracle
+    text = payload["text"]
+    try:
+        prg, res, ip, op = asp_oracle.optimize_text(text, payload.get("traits", []), payload.get("input", "auto"),
+                                                    payload.get("output", "auto"))
+    except Exception:  # pylint: disable=broad-except
+        return None
+    rule_kinds = (ASTType.Rule, ASTType.Minimize)
+    src_other = []
+    for s in prg:
+        if s.ast_type not in rule_kinds:
+            src_other.extend(str(u) for u in s.unpool())
+    res_other = [str(s) for s in res if s.ast_type not in rule_kinds]
+    if src_other != res_other:
+        return {"kind": "non-rule-statements-changed", "source": src_other[:8], "result": res_other[:8]}
+    ins = {(p.name, p.arity) for p in ip}
+    def head_count(stms):
+        cnt = {}
+        for s in stms:
+            for u in (s.unpool() if s.ast_type in rule_kinds else [s]):
+                for p in positive_head_atoms(u):
+                    if p in ins:
+                        cnt[p] = cnt.get(p, 0) + 1
+        return cnt
+    a, b = head_count(prg), head_count(res)
+    if a != b:
+        return {"kind": "input-predicate-heads-changed", "source": {f"{k[0]}/{k[1]}": v for k, v in a.items()},
+                "result": {f"{k[0]}/{k[1]}": v for k, v in b.items()}}
+    return None
+
+
+# ---------------------------------------------------------------------------------------------
+# C17 (in-process part): argument untouched, repeatable, history independent
+# ---------------------------------------------------------------------------------------------
+OTHER_PROGRAMS = [
+    "{ shift(D,L) : pshift(D,L) } 1 :- day(D). #minimize { L,D : shift(D,L) }. a(M) :- M = #max { V : p(V), c(V) }. {c(V)} :- p(V).",
+    ":- s(J1,M), s(J2,M), J1 != J2. {s(J,M)} :- j(J), m(M). x(X) :- y(X,Y), z(Y), w(Y,Z), v(Z).",
+]
+
+
+def c17_check(payload):
+    from ngo.api import optimize
+    from . import asp_oracle
+    text = payload["text"]
+    traits = payload.get("traits", [])
+    flags = {t: (t in traits) for t in asp_oracle.TRAITS}
+    try:
+        prg, res1, ip, op = asp_oracle.optimize_text(text, traits, payload.get("input", "auto"), payload.get("output", "auto"))
+    except Exception:  # pylint: disable=broad-except
+        return None
+    out1 = [str(s) for s in res1]
+    # the caller's statements are not modified
+    arg = parse(text)
+    before = [str(s) for s in arg]
+    n_before = len(arg)
+    try:
+        res2 = optimize(arg, list(ip), list(op), **flags)
+    except Exception as e:  # pylint: disable=broad-except
+        return {"kind": "second-run-raises", "exc": repr(e)[:200]}
+    after = [str(s) for s in arg]
+    if before != after or len(arg) != n_before:
+        return {"kind": "argument-modified", "before": [b for b, a in zip(before, after) if a != b][:3],
+                "after": [a for b, a in zip(before, after) if a != b][:3]}
+    if [str(s) for s in res2] != out1:
+        return {"kind": "second-run-differs", "first": out1[:6], "second": [str(s) for s in res2][:6]}
+    # history: other programs optimised in between
+    for other in OTHER_PROGRAMS:
+        try:
+            asp_oracle.optimize_text(other, asp_oracle.TRAITS)
+        except Exception:  # pylint: disable=broad-except
+            pass
+    try:
+        _, res3, _, _ = asp_oracle.optimize_text(text, traits, payload.get("input", "auto"), payload.get("output", "auto"))
+    except Exception as e:  # pylint: disable=broad-except
+        return {"kind": "run-after-history-raises", "exc": repr(e)[:200]}
+    if [str(s) for s in res3] != out1:
+        return {"kind": "history-dependent", "first": out1[:6], "later": [str(s) for s in res3][:6]}
+    return None
+
+
+# ---------------------------------------------------------------------------------------------
+# C20: generated domain / min / max / next predicates describe the real domain
+# ---------------------------------------------------------------------------------------------
+def _parse_atom(a):
+    import clingo
+    s = clingo.parse_term(a)
+    return s
+
+
+def c20_check(payload):
+    import re
+    import random
+    from . import asp_oracle
+    text = payload["text"]
+    try:
+        asp_oracle.solve(text, "")
+    except asp_oracle.GroundError:
+        return None
+    except asp_oracle.Skip:
+        pass
+    try:
+        prg, res, ip, op = asp_oracle.optimize_text(text, payload.get("traits", []), payload.get("input", "auto"),
+                                                    payload.get("output", "auto"))
+    except Exception:  # pylint: disable=broad-except
+        return None
+    res_text = "\n".join(str(s) for s in res)
+    src_preds = asp_oracle.program_preds(prg)
+    res_preds = asp_oracle.program_preds(res)
+    new_preds = {p for p in res_preds if p not in src_preds}
+    doms = {p for p in new_preds if p[0].startswith("__dom_")}
+    order = set()
+    for p in new_preds:
+        m = re.match(r"^__(min|max|next)_(\d+(?:_\d+)*)_(\d+)(.+)$", p[0])
+        if m and any(q[0] == m.group(4) for q in res_preds):
+            order.add(p)
+    if not doms and not order:
+        return None
+    instances = payload.get("instances")
+    if instances is None:
+        instances = asp_oracle.gen_instances(random.Random(len(text)), [(p.name, p.arity) for p in ip], 5)
+    for facts in instances:
+        try:
+            models = asp_oracle.solve(res_text, facts)
+        except (asp_oracle.Skip, asp_oracle.GroundError):
+            continue
+        ext_per_model = []
+        for atoms, _ in models:
+            by_pred = {}
+            for a in atoms:
+                s = _parse_atom(a)
+                by_pred.setdefault((s.name, len(s.arguments)), set()).add(tuple(s.arguments))
+            ext_per_model.append(by_pred)
+            # (1) domain predicate over-approximates the predicate it is named after
+            for d in doms:
+                orig = (d[0][len("__dom_"):], d[1])
+                if orig in src_preds:
+                    missing = by_pred.get(orig, set()) - by_pred.get(d, set())
+                    if missing:
+                        return {"kind": "domain-not-superset", "instance": facts, "domain": f"{d[0]}/{d[1]}",
+                                "missing": [str(list(map(str, m))) for m in list(missing)[:3]], "result": res_text[:1500]}
+            # (3) min / max / next are least / greatest / successor of the domain values per group
+            for o in order:
+                m = re.match(r"^__(min|max|next)_(\d+(?:_\d+)*)_(\d+)(.+)$", o[0])
+                if not m:
+                    continue
+                kind, positions, position, domname = m.group(1), [int(x) for x in m.group(2).split("_")], int(m.group(3)), m.group(4)
+                cands = [p for p in res_preds if p[0] == domname]
+                if len(cands) != 1:
+                    continue
+                dom = cands[0]
+                groups = {}
+                for t in by_pred.get(dom, set()):
+                    g = tuple(t[i] for i in range(dom[1]) if i not in positions)
+                    groups.setdefault(g, set()).add(t[position])
+                want = set()
+                for g, vals in groups.items():
+                    sv = sorted(vals)
+                    if kind == "min":
+                        want.add(g + (sv[0],))
+                    elif kind == "max":
+                        want.add(g + (sv[-1],))
+                    else:
+                        for x, y in zip(sv, sv[1:]):
+                            want.add(g + (x, y))
+                got = by_pred.get(o, set())
+                if got != want:
+                    return {"kind": f"{kind}-predicate-wrong", "instance": facts, "pred": f"{o[0]}/{o[1]}",
+                            "got": sorted(str(list(map(str, t))) for t in got)[:5],
+                            "want": sorted(str(list(map(str, t))) for t in want)[:5], "result": res_text[:1500]}
+        # (2) domain / order predicates do not depend on choices: same extension in every answer set
+        if ext_per_model:
+            for d in sorted(doms | order):
+                exts = {frozenset(m.get(d, set())) for m in ext_per_model}
+                if len(exts) > 1:
+                    return {"kind": "auxiliary-predicate-depends-on-choices", "instance": facts, "pred": f"{d[0]}/{d[1]}",
+                            "result": res_text[:1500]}
+    return None
